@@ -8,10 +8,12 @@ Real code (public API only):
   (further classes are registered in ADAPTERS below)
   ml_metrics._src.aggregates.classification.ConfusionMatrixAggFn(...)  .create_state / .update_state / .merge_states / .get_result
       public arrays of a state: .tp, .tn, .fp, .fn
+  ml_metrics._src.aggregates.rolling_stats.Histogram(range=, bins=)   .add(x) -> batch Histogram   .merge   .result() -> HistogramResult
+      public arrays: .hist, .bin_edges
 Model: lean/MlModel/Model/Agg/HeapObs.lean (populations with returned values and caller writes),
-  Model/Agg/ThrHeap.lean (ThresholdedRetrieval over buffer cells), Model/Agg/CmStateHeap.lean (confusion-matrix states);
+  Model/Agg/ThrHeap.lean (ThresholdedRetrieval over buffer cells), Model/Agg/CmStateHeap.lean (confusion-matrix states), Model/Agg/HistHeap.lean (Histogram);
   driver lean/Driver/AggObs.lean ("aggobs"); theorems lean/MlModel/Properties/C11/RetrievalThrHeap.lean,
-  ClassificationStateHeap.lean.
+  ClassificationStateHeap.lean, RollingHistHeap.lean.
 
 One case = a program over numbered accumulators and the list `outs` of every value the caller was handed:
   {"op":"make"} {"op":"add","acc":i,"batch":..} {"op":"merge","acc":i,"other":j} {"op":"result","acc":i}
@@ -268,7 +270,89 @@ class CmStateAdapter:
     return {'yt': [rng.choice(labs) for _ in range(n)], 'yp': [rng.choice(labs) for _ in range(n)]}
 
 
-ADAPTERS = {a.name: a for a in (ThrAdapter, CmStateAdapter)}
+class HistAdapter:
+  """Histogram(range=(0, nb), bins=nb): add returns the batch Histogram, result() a HistogramResult of copies."""
+  name = 'hist'
+
+  @staticmethod
+  def make(case):
+    from ml_metrics._src.aggregates import rolling_stats as RS
+    return RS.Histogram(range=(0, case['bins']), bins=case['bins'])
+
+  @staticmethod
+  def batch_args(batch):
+    import numpy as np
+    return [np.asarray([_fl(x) for x in batch], dtype=float)]
+
+  @staticmethod
+  def do_add(case, accs, i, args):
+    b = accs[i].add(*args)
+    return [b.hist, b.bin_edges], []
+
+  @staticmethod
+  def do_merge(case, accs, i, j):
+    accs[i].merge(accs[j])
+
+  @staticmethod
+  def do_result(case, accs, i):
+    r = accs[i].result()
+    return [r.hist, r.bin_edges], []
+
+  @staticmethod
+  def pub(acc):
+    return [acc.hist, acc.bin_edges]
+
+  @staticmethod
+  def scalars(acc):
+    return []
+
+  @staticmethod
+  def reading(case, acc):
+    r = acc.result()
+    return {'hist': canon(r.hist), 'bin_edges': canon(r.bin_edges)}
+
+  @staticmethod
+  def counts(case, batch):
+    """textbook binning: nb unit bins over [0, nb], the last one closed on the right; values outside are dropped."""
+    nb = case['bins']
+    out = [0] * nb
+    for x in batch:
+      v = _fl(x)
+      if 0 <= v <= nb:
+        out[min(int(v), nb - 1)] += 1
+    return out
+
+  @staticmethod
+  def request(case):
+    prog = [dict(op, batch={'counts': HistAdapter.counts(case, op['batch'])}) if op['op'] == 'add' else op
+            for op in case['prog']]
+    return dict(model='aggobs', cls='hist', edges=list(range(case['bins'] + 1)), prog=prog)
+
+  class Sim:
+    def __init__(self, cfg): pass
+    def make(self): pass
+    def add(self, i, ok=True): return 2
+    def merge(self, i, j): pass
+    def result(self, i): return 2
+
+  @staticmethod
+  def fixed_cfg():
+    return dict(bins=3)
+
+  @staticmethod
+  def gen_cfg(rng):
+    return dict(bins=rng.choice([1, 2, 4]))
+
+  @staticmethod
+  def gen_batch(rng, cfg, malformed=False):
+    out = []
+    for _ in range(rng.choice([0, 1, 2, 3, 5])):
+      f = Fraction(rng.randrange(-2, 4 * cfg['bins'] + 3), 4)
+      out.append({'n': f.numerator, 'd': f.denominator})
+    return out
+
+
+ADAPTERS = {a.name: a for a in (ThrAdapter, CmStateAdapter, HistAdapter)}
 
 
 # ============================================================================ real code
@@ -493,7 +577,8 @@ def gen_cases(ctx):
     # small-exhaustive: every sequence of 3 operations from a fixed alphabet after a fixed prefix
     # (three accumulators: 0 and 1 updated once, 2 never updated)
     cfg = ad.fixed_cfg()
-    b = lambda seed: ad.gen_batch(random.Random(seed), cfg) or ad.gen_batch(random.Random(seed + 100), cfg)
+    b = lambda seed: (ad.gen_batch(random.Random(seed), cfg) or ad.gen_batch(random.Random(seed + 100), cfg)
+                      or ad.gen_batch(random.Random(seed + 200), cfg))
     prefix = [{'op': 'make'}, {'op': 'make'}, {'op': 'make'}, {'op': 'add', 'acc': 0, 'batch': b(1)},
               {'op': 'add', 'acc': 1, 'batch': b(2)}]
     alphabet = [{'op': 'add', 'acc': 0, 'batch': b(3)}, {'op': 'merge', 'acc': 0, 'other': 1}, {'op': 'merge', 'acc': 1, 'other': 0},
@@ -555,10 +640,11 @@ def shrink(case, fails):
 
 
 class C11:
-  LEAN_MODULES = ['MlModel.Properties.C11.RetrievalThrHeap', 'MlModel.Properties.C11.ClassificationStateHeap']
+  LEAN_MODULES = ['MlModel.Properties.C11.RetrievalThrHeap', 'MlModel.Properties.C11.ClassificationStateHeap',
+                  'MlModel.Properties.C11.RollingHistHeap']
   TRUSTED = TRUSTED
   ASSUMPTIONS = ASSUMPTIONS
-  RULE = ('heapobs [ThresholdedRetrieval; ConfusionMatrixAggFn state API (binary / macro / micro, explicit vocabulary)]: programs '
+  RULE = ('heapobs [ThresholdedRetrieval; ConfusionMatrixAggFn state API (binary / macro / micro, explicit vocabulary); Histogram (unit bins)]: programs '
           'of make / add / merge / result / poke (the caller overwrites an array of a value it was handed: a batch object, a '
           'result array, the previous state object of update_state) over 2-5 accumulators: corpus, then every sequence of 3 '
           'operations from a 9-letter alphabet after a fixed prefix (two updated accumulators and a never-updated one), then '
